@@ -180,18 +180,36 @@ func flat(gt interface{}) ref.V { return ref.V(reg.Flatten(gt)) }
 // sl builds a fresh []G1Affine / []G2Affine (values are copied, so the library never sees our originals).
 func (p *pc) sl(gi int, pts []interface{}) interface{} { return reg.SliceOf(p.G[gi].AffType(), pts...) }
 
+// unchanged panics (a rapid failure) when a library call modified the point slice it was given:
+// the entry points take their inputs by slice and must treat them as read-only.
+func (p *pc) unchanged(fn string, gi int, sl interface{}, pts []interface{}) {
+	for i, want := range pts {
+		if !reflect.DeepEqual(reg.Flatten(reg.Index(sl, i)), reg.Flatten(want)) {
+			panic(fmt.Sprintf("%s: %s modified element %d of the caller's []G%dAffine input", p.c.Name, fn, i, gi+1))
+		}
+	}
+}
+
+func (p *pc) callPQ(fn string, P, Q []interface{}) []interface{} {
+	ps, qs := p.sl(0, P), p.sl(1, Q)
+	res := p.c.Pkg.F(fn, ps, qs)
+	p.unchanged(fn, 0, ps, P)
+	p.unchanged(fn, 1, qs, Q)
+	return res
+}
+
 func (p *pc) pair(P, Q []interface{}) (interface{}, error) {
-	res := p.c.Pkg.F("Pair", p.sl(0, P), p.sl(1, Q))
+	res := p.callPQ("Pair", P, Q)
 	return ptr(res[0]), reg.Err(res)
 }
 
 func (p *pc) check(P, Q []interface{}) (bool, error) {
-	res := p.c.Pkg.F("PairingCheck", p.sl(0, P), p.sl(1, Q))
+	res := p.callPQ("PairingCheck", P, Q)
 	return res[0].(bool), reg.Err(res)
 }
 
 func (p *pc) miller(P, Q []interface{}) (interface{}, error) {
-	res := p.c.Pkg.F("MillerLoop", p.sl(0, P), p.sl(1, Q))
+	res := p.callPQ("MillerLoop", P, Q)
 	return ptr(res[0]), reg.Err(res)
 }
 
@@ -218,17 +236,23 @@ func cpLines(l interface{}) interface{} {
 }
 
 func (p *pc) millerFixed(P []interface{}, lines interface{}) (interface{}, error) {
-	res := p.c.Pkg.F("MillerLoopFixedQ", p.sl(0, P), lines)
+	ps := p.sl(0, P)
+	res := p.c.Pkg.F("MillerLoopFixedQ", ps, lines)
+	p.unchanged("MillerLoopFixedQ", 0, ps, P)
 	return ptr(res[0]), reg.Err(res)
 }
 
 func (p *pc) pairFixed(P []interface{}, lines interface{}) (interface{}, error) {
-	res := p.c.Pkg.F("PairFixedQ", p.sl(0, P), lines)
+	ps := p.sl(0, P)
+	res := p.c.Pkg.F("PairFixedQ", ps, lines)
+	p.unchanged("PairFixedQ", 0, ps, P)
 	return ptr(res[0]), reg.Err(res)
 }
 
 func (p *pc) checkFixed(P []interface{}, lines interface{}) (bool, error) {
-	res := p.c.Pkg.F("PairingCheckFixedQ", p.sl(0, P), lines)
+	ps := p.sl(0, P)
+	res := p.c.Pkg.F("PairingCheckFixedQ", ps, lines)
+	p.unchanged("PairingCheckFixedQ", 0, ps, P)
 	return res[0].(bool), reg.Err(res)
 }
 
